@@ -37,7 +37,14 @@ func ConvertRequest(ctx *fasthttp.RequestCtx, r *http.Request, forServer bool) e
 	}
 	r.ContentLength = int64(len(body))
 	r.RemoteAddr = ctx.RemoteAddr().String()
-	r.Host = b2s(ctx.Host())
+	// net/http takes Host from the absolute-form target if there is one and
+	// from the Host header otherwise, as sent. ctx.Host() is the host of the
+	// parsed URI instead: lower-cased, and taken from the path for targets
+	// starting with "//".
+	r.Host = b2s(ctx.Request.Header.Host())
+	if rURL.Host != "" {
+		r.Host = rURL.Host
+	}
 	r.TLS = ctx.TLSConnectionState()
 	r.Body = io.NopCloser(bytes.NewReader(body))
 	r.URL = rURL
